@@ -204,8 +204,8 @@ func nodeCall(f *potenc.File, x potenc.Extra, i int, data []byte, short bool) Ou
 		}
 		on := &potree.OctreeNode{Name: "r", NumPoints: uint32(x.NodeN[i]), ByteOffset: uint64(x.NodeOff[i]), ByteSize: uint64(x.NodeSize[i])}
 		size := x.NodeSize[i] + 5
-		if short { // a caller buffer smaller than the node: Read fills what fits
-			size = x.NodeSize[i] / 2
+		if short { // a caller buffer that holds only the first half of the points: Read fills what fits
+			size = (x.NodeN[i] / 2) * m.BytesPerPoint()
 		}
 		buf := make([]byte, size)
 		n, err := on.Read(bytes.NewReader(data), buf)
@@ -214,12 +214,9 @@ func nodeCall(f *potenc.File, x potenc.Extra, i int, data []byte, short bool) Ou
 		}
 		v := map[string]any{"n": n}
 		if short {
-			// only the transfer is observed: the bytes that arrived
-			got := []int{}
-			for _, b := range buf[:n] {
-				got = append(got, int(b))
-			}
-			v["bytes"] = got
+			// decode the points that arrived
+			half := &potree.OctreeNode{Name: "r", NumPoints: uint32(x.NodeN[i] / 2)}
+			v["mesh"] = projNodeMesh(potree.LoadNode(half, m, buf[:n]))
 			return v, 0, nil
 		}
 		mesh := potree.LoadNode(on, m, buf[:n])
@@ -279,7 +276,7 @@ func runFile(raw json.RawMessage, dir string, maxCuts int, seed int64, only int)
 		if f.Fmt == "pnode" {
 			for i := range x.NodeOff {
 				lines = append(lines, line{"k": "node", "i": i, "at": len(data), "short": false, "out": nodeCall(&f, x, i, data, false)})
-				if x.NodeSize[i] >= 2 {
+				if x.NodeN[i] >= 2 {
 					lines = append(lines, line{"k": "node", "i": i, "at": len(data), "short": true, "out": nodeCall(&f, x, i, data, true)})
 				}
 			}
